@@ -33,13 +33,13 @@ set_option maxRecDepth 100000
 /-- the levels the statements range over (constants and tables regenerated from the C headers) -/
 def IsLevel (K : Lvl) : Prop := K = L1 ∨ K = L3 ∨ K = L5
 
-theorem wfDim2_of_level {K : Lvl} (h : IsLevel K) : wfDim2 K = true := by
+theorem wfDim2_of_level {K : Lvl} (h : IsLevel K) : WfDim2 K := by
   rcases h with rfl | rfl | rfl
   · exact L1_wfDim2
   · exact L3_wfDim2
   · exact L5_wfDim2
 
-theorem wfHeur_of_level {K : Lvl} (h : IsLevel K) : wfHeur K = true := by
+theorem wfHeur_of_level {K : Lvl} (h : IsLevel K) : WfHeur K := by
   rcases h with rfl | rfl | rfl
   · exact L1_wfHeur
   · exact L3_wfHeur
@@ -60,8 +60,8 @@ theorem verify_safe_partial_heur {K : Lvl} (hK : IsLevel K) (pk : RawPk) (s : Ra
 def pkEx : RawPk := ⟨true, false, 1, 2⟩
 def sigEx : RawSig := ⟨true, false, 0, 1, 2 ^ 129 + 5, 6, 7, 2 ^ 130 - 1, 2 ^ 256 - 1, 0, 0, 2, 23, 0⟩
 def sigHEx : RawSigH := ⟨true, false, 2, 0, 21, 2 ^ 124 - 1, 0, 2 ^ 124 - 1, 5, 2 ^ 123, 7, 1, 0⟩
-example : sigInRangeDim2 L1 pkEx sigEx = true ∧ (bodyDim2 L1 pkEx sigEx).length ≥ 20 := by decide +kernel
-example : sigInRangeHeur L1 pkEx sigHEx = true ∧ (bodyHeur L1 pkEx sigHEx).length ≥ 20 := by decide +kernel
+example : sigInRangeDim2 L1 pkEx sigEx = true ∧ (cheapDim2 L1 pkEx sigEx).length ≥ 20 := by decide +kernel
+example : sigInRangeHeur L1 pkEx sigHEx = true ∧ (cheapHeur L1 pkEx sigHEx).length ≥ 20 := by decide +kernel
 
 /-! ## the unguarded model (pinned tree): the full statement is false — one witness per defect class -/
 
@@ -71,8 +71,7 @@ def unsafeWitnessesDim2 : List (String × RawSig) :=
     ("two_resp_length = -121: negative strategies row",              { sigEx with trl := -121 }),
     ("two_resp_length = INT_MIN: signed overflow in response_length - two_resp_length", { sigEx with trl := -2 ^ 31 }),
     ("two_resp_length = INT_MAX: 2^31 doublings (non-termination)",  { sigEx with trl := 2 ^ 31 - 1 }),
-    ("backtracking = 200: STRATEGY4[200] of 134 rows",               { sigEx with bt := 200 }),
-    ("backtracking = -1: STRATEGY4[-1]",                             { sigEx with bt := -1 }),
+    ("backtracking = -65000: phi_chall.length wraps as unsigned short, naive chain of 65248 steps", { sigEx with bt := -65000 }),
     ("backtracking = INT_MAX: 2^31 doublings",                       { sigEx with bt := 2 ^ 31 - 1 }),
     ("chall_coeff = 2^256: 5 words into scal[NWORDS_ORDER = 4]",     { sigEx with chall := 2 ^ 256 }),
     ("chall_coeff = -2^300: |x| is written, 5 words into 4",         { sigEx with chall := -(2 ^ 300) }) ]
@@ -80,8 +79,7 @@ def unsafeWitnessesDim2 : List (String × RawSig) :=
 def unsafeWitnessesHeur : List (String × RawSigH) :=
   [ ("two_resp_length = 10: strategies[134] of 134 rows",            { sigHEx with trl := 10 }),
     ("two_resp_length = 127: ibz_pow(2, -1) = 2^(2^64-1)",           { sigHEx with trl := 127 }),
-    ("two_resp_length = -8: STRATEGY4[134]",                         { sigHEx with trl := -8 }),
-    ("two_resp_length = -200: negative isogeny length",              { sigHEx with trl := -200 }),
+    ("two_resp_length = -200: negative isogeny length (wraps as unsigned short: 65000+ naive steps)", { sigHEx with trl := -200 }),
     ("two_resp_length = INT_MAX: signed overflow in len_chall + two_resp_length", { sigHEx with trl := 2 ^ 31 - 1 }) ]
 
 /-- every listed witness makes the unguarded level-1 model perform an out-of-bounds / unbounded access -/
@@ -180,6 +178,29 @@ theorem verify_total_heur {K : Lvl} (hK : IsLevel K) (pk : RawPk) (s : RawSigH) 
     (h : Access.loop what count max ∈ verifyAccessesHeur K heur pk s) : count ≤ max := by
   have := verify_safe_heur hK pk s _ h
   simpa [Access.ok] using this
+
+/-- **total work**: the iterations of all modelled loops of one verification (cofactor clearing, `ec_dbl_iter`, ladder,
+    biscalar multiplications, 4-isogeny and (2,2)-isogeny steps, the naive chains incl. their inner doublings) are bounded by
+    the explicit function `workCap K = 10 f + 4 (f + 64) + 2 f²` of the level, for ALL field values -/
+theorem verify_total_work_dim2 {K : Lvl} (hK : IsLevel K) (pk : RawPk) (s : RawSig) :
+    totalWork (verifyAccessesDim2 K dim2 pk s) ≤ workCap K := by
+  have hall : allOk (verifyAccessesDim2 K dim2 pk s) = true := by
+    unfold allOk; exact List.all_eq_true.2 (verify_safe_dim2 hK pk s)
+  refine Nat.le_trans (totalWork_le_cap _ hall) ?_
+  unfold verifyAccessesDim2
+  split
+  · exact totalCap_bodyDim2 K pk s
+  · simp [totalCap_nil]
+
+theorem verify_total_work_heur {K : Lvl} (hK : IsLevel K) (pk : RawPk) (s : RawSigH) :
+    totalWork (verifyAccessesHeur K heur pk s) ≤ workCap K := by
+  have hall : allOk (verifyAccessesHeur K heur pk s) = true := by
+    unfold allOk; exact List.all_eq_true.2 (verify_safe_heur hK pk s)
+  refine Nat.le_trans (totalWork_le_cap _ hall) ?_
+  unfold verifyAccessesHeur
+  split
+  · exact totalCap_bodyHeur K pk s
+  · simp [totalCap_nil]
 
 /-- values outside the honest ranges are rejected (return value 0 whatever the arithmetic computes, whether or not
     the later validity checks exist) and nothing is accessed -/
